@@ -195,7 +195,7 @@ def decorate(rng, line: str) -> str:
     return "\n" + line + "\n"
 
 
-NOISE = ["", "  ", "# a comment", "--index-url http://x", "\\", "   # c", "--no-binary :all:", "-e .", "-r other.txt", "-", ".x"]
+NOISE = ["", "  ", "# a comment", "# Gr\u00f6\u00dfe \u2713", "--index-url http://x", "\\", "   # c", "--no-binary :all:", "-e .", "-r other.txt", "-", ".x"]
 BAD_MARKERS = ['os_name=="nt" and', '(os_name=="nt"', 'foo=="x"', 'os_name=>"nt"', 'os_name=="nt")',
                'os_name "nt"', 'os_name==nt', '', 'os_name=="nt" AND os_name=="x"', 'os_name=="nt',
                'extra == "a" or', 'python_version ~ "3"', 'not os_name=="nt"', 'os_name=="nt" os_name=="x"']
@@ -229,7 +229,7 @@ def gen_decl(rng, mode: str) -> Dict[str, Any]:
     canonical = mode == "wf"
     allow_or = True            # since the parenthesising repair `or` is inside the guard
     malformed = 0.25 if mode == "malformed" else 0.0
-    d: Dict[str, Any] = {"framework": False, "cfg": None}
+    d: Dict[str, Any] = {"framework": False, "cfg": None, "author": rng.choice([None, "J\u00fcrgen M\u00fcller", "\u5c71\u7530"])}
     d["name"] = rng.choice(NAMES + ["my proj"]) if mode != "wf" else rng.choice(NAMES)
     d["version"] = rng.choice(VERSIONS) if mode == "wf" or rng.random() < 0.8 else rng.choice(ODD_VERSIONS)
     d["install"] = gen_strs(rng, canonical, allow_or, malformed)
@@ -272,8 +272,12 @@ def gen_decl(rng, mode: str) -> Dict[str, Any]:
     return d
 
 
+FREE_TEXT = [["author = J\u00fcrgen M\u00fcller"], ["description = Gr\u00f6\u00dfenma\u00df \u2013 na\u00efve caf\u00e9 \u2713"],
+             ["author = \u5c71\u7530\u592a\u90ce", "description = \u00e9t\u00e9"], ["keywords = a, b"], None]
+
+
 def gen_cfg(rng, canonical: bool, allow_or: bool, malformed: float) -> Dict[str, Any]:
-    c: Dict[str, Any] = {"name": None, "version": None, "install": None, "extras": None}
+    c: Dict[str, Any] = {"name": None, "version": None, "install": None, "extras": None, "text": rng.choice(FREE_TEXT)}
     if rng.random() < 0.7:
         c["name"] = rng.choice(NAMES)
     if rng.random() < 0.7:
@@ -292,8 +296,9 @@ def gen_cfg(rng, canonical: bool, allow_or: bool, malformed: float) -> Dict[str,
 
 def cfg_text(c: Dict[str, Any]) -> str:
     out = []
-    if c["name"] is not None or c["version"] is not None:
+    if c["name"] is not None or c["version"] is not None or c.get("text"):
         out.append("[metadata]")
+        out += list(c.get("text") or [])          # free-text fields, UTF-8 (author with an umlaut, description)
         if c["name"] is not None:
             out.append("name = " + c["name"])
         if c["version"] is not None:
@@ -469,7 +474,11 @@ class Stubs:
     def __enter__(self):
         S = self.S
         self.old = (S._build_egg_info, S._build_wheel)
-        old_egg = S._build_egg_info
+        # re-entrant: a nested Stubs(real_egg_info=True) must reach the REAL function, not the outer stub
+        self.owner = not hasattr(S, "_c12_real_fallbacks")
+        if self.owner:
+            S._c12_real_fallbacks = self.old
+        old_egg = S._c12_real_fallbacks[0]
 
         def egg(name, extractor, setup_file):
             self.events.append("egg_info" if setup_file is not None else "egg_info:none")
@@ -486,6 +495,8 @@ class Stubs:
 
     def __exit__(self, *a):
         self.S._build_egg_info, self.S._build_wheel = self.old
+        if self.owner:
+            del self.S._c12_real_fallbacks
 
 
 def observe_extract(enc440, MM, MetadataError, path: str, semantic: bool = False) -> Any:
@@ -617,6 +628,9 @@ def gen_project(rng, i: int) -> Dict[str, Any]:
     name = rng.choice(["proj", "my-proj", "Pr.oj", "p_q"])
     lead = f"{name}-1.0"
     fs = rng.sample(FILE_POOL, rng.choice([1, 2, 3, 4, 5]))
+    inner = [f.split("/")[0] for f in fs if "/" in f]
+    if inner and rng.random() < 0.3:
+        lead = rng.choice(inner)          # a checkout directory named like the package it holds (tinytool/tinytool/...)
     files = [("setup.py", PROBE_SETUP.format(name=name))] + [(f, f"content of {f} #{i}\n" + rng.choice(["", "é\n", "x = 1\n"])) for f in fs]
     return {"name": name, "lead": lead, "files": files, "tar_dirs": rng.random() < 0.7, "zip_top": rng.random() < 0.7,
             "zip_dirs": rng.random() < 0.4}
@@ -711,11 +725,18 @@ class Probe(types.ModuleType):
             except Exception as exn:
                 o = ["EXC", type(exn).__name__]
             try:
+                with open(path) as fh:                 # no encoding: the extractor's default decoding
+                    od: Any = ["B", fh.read()]
+            except OSError:
+                od = ["ERR"]
+            except Exception as exn:
+                od = ["EXC", type(exn).__name__]
+            try:
                 c = bool(ex.contains_path(path))
                 tr = ex.to_relative(path)
             except Exception as exn:
                 c, tr = None, type(exn).__name__
-            self.out.append(["q", cwd, path, e, o, c, tr])
+            self.out.append(["q", cwd, path, e, o, c, tr, od])
 
 
 def install_probe(S) -> Tuple[Probe, Any]:
@@ -776,7 +797,7 @@ def t2_paths(ctx: Ctx, enc440, MM, S, MetadataError) -> None:
                             else:
                                 expect.append(("find_in_archive", case, "NONE" if r is None else "S " + hx(r)))
                         elif rec[0] == "q":
-                            _, cwd, path, e, o, c, tr = rec
+                            _, cwd, path, e, o, c, tr, od = rec
                             case = {"kind": k, "project": {kk: pr[kk] for kk in ("lead", "tar_dirs", "zip_top", "zip_dirs")},
                                     "files": [f for f, _ in pr["files"]], "root": root, "cwd": cwd, "path": path}
                             args = "{} {} {}".format(hx(root), hx(cwd), hx(path))
@@ -784,6 +805,8 @@ def t2_paths(ctx: Ctx, enc440, MM, S, MetadataError) -> None:
                             expect.append(("exists", case, "1" if e is True else "0" if e is False else str(e)))
                             lines.append("O {} {} {}".format(k, pj, args))
                             expect.append(("open", case, "B " + hx(o[1]) if o[0] == "B" else o[0] if o[0] == "ERR" else "EXC:" + o[1]))
+                            lines.append("O {} {} {}".format(k, pj, args))
+                            expect.append(("open-default-encoding", case, "B " + hx(od[1]) if od[0] == "B" else od[0] if od[0] == "ERR" else "EXC:" + od[1]))
                             lines.append("C {}".format(args))
                             expect.append(("contains_path", case, "1" if c else "0"))
                             lines.append("R {}".format(args))
@@ -825,6 +848,9 @@ def kwargs_of(d: Dict[str, Any]) -> Dict[str, Any]:
         kw["extras_require"] = {k: v for k, v in d["extras"]}
     if d["framework"]:
         kw["use_pyscaffold"] = True
+    if d.get("author"):
+        kw["author"] = d["author"]
+        kw["description"] = "Gr\u00f6\u00dfe \u2013 caf\u00e9"
     return kw
 
 
@@ -865,6 +891,9 @@ def pyproject_text(d: Dict[str, Any]) -> str:
     opt = {k.strip(): list(v) for k, v in d["extras"] if ":" not in k and k.strip()}
     if opt:
         proj["optional-dependencies"] = opt
+    if d.get("author"):
+        proj["authors"] = [{"name": d["author"]}]
+        proj["description"] = "Gr\u00f6\u00dfe \u2013 caf\u00e9"
     return toml.dumps({"build-system": {"requires": ["setuptools"], "build-backend": "setuptools.build_meta"}, "project": proj})
 
 
@@ -983,7 +1012,22 @@ def gen_program(rng, i: int) -> Dict[str, Any]:
     d["install"] = [x for x in (d["install"] or [])]
     prog = {"decl": d, "version_idiom": rng.choice(VERSION_IDIOMS), "install_idiom": rng.choice(INSTALL_IDIOMS),
             "here": rng.choice(HERE_STYLES), "pkg": rng.choice(["pkg", "pkg", "mylib", "src_pkg"]), "i": i,
-            "pyproject": False, "readme": rng.choice([None, None, "plain", "guarded"])}
+            "pyproject": False, "readme": rng.choice([None, None, "plain", "guarded", "noenc"]), "cfg_only": False, "bare_dir": False}
+    r = rng.random()
+    if r < 0.14:
+        # a purely declarative project: setup.cfg only, with UTF-8 free text
+        prog["cfg_only"] = True
+        d["extras"] = [[k, v] for k, v in d["extras"] if ":" not in k and '"' not in k]
+        prog["text"] = rng.choice([t for t in FREE_TEXT if t])
+        return prog
+    if r < 0.3:
+        # a bare checkout: the directory is named like the package it holds, files are reached through the
+        # absolute path of setup.py, reads are guarded ("works from a bare checkout too")
+        prog["bare_dir"] = True
+        prog["version_idiom"] = rng.choice(["guarded_exists", "guarded_isfile", "guarded_try"])
+        prog["here"] = rng.choice(["abspath_dirname", "dirname_abspath"])
+        d["name"] = rng.choice(["a", "q", "pkg1", "tinytool", "x_y"])
+        return prog
     if rng.random() < 0.12:
         prog["pyproject"] = True
         d["extras"] = [[k, v] for k, v in d["extras"] if ":" not in k]
@@ -996,6 +1040,11 @@ def render_program(prog: Dict[str, Any]) -> Tuple[List[Tuple[str, str]], Dict[st
     pkg = prog["pkg"]
     if prog["pyproject"]:
         return [("pyproject.toml", pyproject_text(d)), (pkg + "/__init__.py", "")], d
+    if prog.get("cfg_only"):
+        c = {"name": d["name"], "version": d["version"], "install": list(d["install"]),
+             "extras": [[k, list(v)] for k, v in d["extras"]] or None, "text": prog.get("text")}
+        eff0 = {"name": None, "version": None, "install": None, "extras": [], "framework": False, "cfg": c}
+        return [(pkg + "/__init__.py", ""), ("setup.cfg", cfg_text(c))], eff0
     files: Dict[str, str] = {pkg + "/__init__.py": "# package\n"}
     eff = {"name": d["name"], "version": d["version"], "install": d["install"], "extras": d["extras"],
            "framework": False, "cfg": None}
@@ -1078,6 +1127,16 @@ def render_program(prog: Dict[str, Any]) -> Tuple[List[Tuple[str, str]], Dict[st
         files["src/c12verhelper.py"] = "VERSION = '%s'\n" % v
         pre.append("sys.path.insert(0, os.path.join(os.path.dirname(os.path.abspath(__file__)), 'src'))\nfrom c12verhelper import VERSION")
         kw.append("version=VERSION")
+    elif vi in ("guarded_exists", "guarded_isfile", "guarded_try"):
+        inner = d["name"]                        # the package directory carries the project's (= the checkout's) name
+        files[inner + "/VERSION"] = v + "\n"
+        pre.append("vfile = os.path.join(here, %r, 'VERSION')" % inner)
+        if vi == "guarded_try":
+            pre.append("try:\n    version = open(vfile).read().strip()\nexcept IOError:\n    version = '0.0.0'")
+        else:
+            test = "os.path.exists" if vi == "guarded_exists" else "os.path.isfile"
+            pre.append("version = open(vfile).read().strip() if %s(vfile) else '0.0.0'" % test)
+        kw.append("version=version")
     elif vi in SHARED_IDIOMS:
         # a helper module whose NAME is shared with other projects of the same batch (each with its own
         # values): what one project loads must never be what a later project sees
@@ -1107,7 +1166,9 @@ def render_program(prog: Dict[str, Any]) -> Tuple[List[Tuple[str, str]], Dict[st
             kw += ["version=ns['VERSION']", "install_requires=ns['REQUIRES']"]
     if prog.get("readme"):
         files["README.rst"] = "Title\n=====\n\ntext \u00e9\n"
-        if prog["readme"] == "guarded":
+        if prog["readme"] == "noenc":
+            pre.append("long_description = open(%s).read()" % P("README.rst"))
+        elif prog["readme"] == "guarded":
             pre.append("long_description = io.open(%s, encoding='utf-8').read() if os.path.exists(%s) else ''" % (P("README.rst"), P("README.rst")))
         else:
             pre.append("long_description = io.open(%s, encoding='utf-8').read()" % P("README.rst"))
@@ -1241,6 +1302,13 @@ def t2_batches(ctx: Ctx, enc440, MM, S, MetadataError) -> None:
                     ctx.mismatch("module-left-in-sys.modules", case, leaked, [])
 
 
+def render_prog(base: Path, prog: Dict[str, Any], lead: str, files: List[Tuple[str, str]]) -> Dict[str, str]:
+    paths = render(base, lead, files)
+    if prog.get("bare_dir"):
+        paths["D"] = render(base / "checkout", prog["decl"]["name"], files)["D"]     # directory named like its package
+    return paths
+
+
 BROKEN_SETUP = "from setuptools import setup\nraise RuntimeError('this project cannot be analysed')\n"
 
 
@@ -1255,7 +1323,7 @@ def t2_idioms(ctx: Ctx, enc440, MM, S, MetadataError) -> None:
         prog = gen_program(rng, i)
         files, eff = render_program(prog)
         lead = "{}-{}".format(prog["decl"]["name"], _canon_version(prog["decl"]["version"]))
-        paths = render(base / str(i), lead, files)
+        paths = render_prog(base / str(i), prog, lead, files)
         progs.append((prog, files, eff, lead, paths))
     # projects that cannot be analysed, interleaved
     broken = []
@@ -1296,7 +1364,7 @@ def t2_idioms(ctx: Ctx, enc440, MM, S, MetadataError) -> None:
     ans = run_model("C12", lines)
     for pi, (prog, files, eff, lead, paths) in enumerate(progs):
         declared = dec_hres(ans[4 * pi + 3])
-        case_base = {k: prog[k] for k in ("version_idiom", "install_idiom", "here", "pkg", "pyproject", "readme")}
+        case_base = {k: prog.get(k) for k in ("version_idiom", "install_idiom", "here", "pkg", "pyproject", "readme", "cfg_only", "bare_dir", "text")}
         ctx.count("idioms:version:" + prog["version_idiom"])
         ctx.count("idioms:install:" + prog["install_idiom"])
         ctx.count("idioms:here:" + prog["here"])
@@ -1843,6 +1911,37 @@ def t2_frames(ctx: Ctx, enc440, MM, S, MetadataError) -> None:
 
 
 # ======================================================================================
+# T2 (f): the egg_info fall-back, run for real on a small sample (it is NOT modelled: results are compared
+# with the declaration)
+
+FALLBACK_SETUP = ("import subprocess, sys\nout = subprocess.check_output([sys.executable, '-c', 'print(1)'])\n"
+                  "from setuptools import setup\nsetup(name=%r, version=%r, py_modules=[], install_requires=['own%d>=1'])\n")
+
+
+def t2_fallback(ctx: Ctx, enc440, MM, S, MetadataError) -> None:
+    from packaging.version import Version
+    rng = ctx.rng
+    base = ctx.tmpdir() / "fallback"
+    for i in range(ctx.n(2, 12)):
+        name, version = rng.choice(["na", "fb-proj", "Foo.Bar"]), rng.choice(["1.0", "2.3.1"])
+        files = [("setup.py", FALLBACK_SETUP % (name, version, i))]
+        arch = render(base / str(i), "{}-{}".format(name, version), files)
+        checkout = render(base / str(i) / "co", rng.choice(["work-copy", "checkout", "src"]), files)["D"]
+        for k, path in (("D", checkout), (rng.choice("TZ"), None)):
+            path = path or arch[k]
+            with Stubs(S, real_egg_info=True) as st:
+                obs = observe_extract(enc440, MM, MetadataError, path, semantic=True)
+            case = {"name": name, "version": version, "kind": k, "given as": os.path.basename(path)}
+            ctx.count("fallback:" + obs[0])
+            ctx.case(key=("fallback", json.dumps(case, sort_keys=True)), nontrivial=True)
+            want = ("OKSEM", name, enc440.ver_token(Version(version)), ["own%d>=1" % i])
+            if "egg_info" not in st.events:
+                ctx.mismatch("fallback-not-requested", case, st.events, ["egg_info"])
+            if tuple(obs) != want:
+                ctx.mismatch("fallback-result", case, obs, want)
+
+
+# ======================================================================================
 # module interface
 
 
@@ -1863,6 +1962,7 @@ def correspondence(ctx: Ctx) -> None:
     t2_idioms(ctx, enc440, MM, S, MetadataError)
     t2_batches(ctx, enc440, MM, S, MetadataError)
     t2_frames(ctx, enc440, MM, S, MetadataError)
+    t2_fallback(ctx, enc440, MM, S, MetadataError)
     coq_recheck(ctx, enc440)
 
 
@@ -1946,6 +2046,19 @@ def _finding_status(ctx: Ctx, entry: Dict[str, Any], enc440, MM, S, MetadataErro
                 fr.restore()
                 S.FAILED_BUILDS.clear()
             return (alone != after and bool(leaked)), {"B alone": alone, "A": first[:2], "B after A": after, "left on sys.path": leaked}
+        if kind == "in-process-analysis-abandoned":
+            # a supported idiom whose in-process analysis fails and is only rescued by the egg_info subprocess
+            with Stubs(S) as st2:
+                obs = observe_extract(enc440, MM, MetadataError, paths["D"])
+            return "egg_info" in st2.events, {"obs": obs, "fall-backs": st2.events}
+        if kind == "fallback-name-is-directory-name":
+            base = ctx.tmpdir() / "corpus" / (entry["id"] + "-co")
+            if base.exists():
+                shutil.rmtree(base)
+            co = render(base, entry["checkout"], [(f, c) for f, c in entry["files"]])["D"]
+            with Stubs(S, real_egg_info=True):
+                obs = observe_extract(enc440, MM, MetadataError, co, semantic=True)
+            return (obs[0] == "OKSEM" and obs[1] != entry["name"]), obs
         if kind == "failure-not-metadata-error":
             obs = observe_extract(enc440, MM, MetadataError, paths["D"])
             return obs[0] == "EXC", obs
@@ -2013,7 +2126,7 @@ def oracle_program(ctx: Ctx, enc440, MM, S, MetadataError, prog: Dict[str, Any],
     files, eff = render_program(prog)
     d = prog["decl"]
     lead = "{}-{}".format(d["name"], _canon_version(d["version"]))
-    paths = render(ctx.tmpdir() / "oracle" / tag, lead, files)
+    paths = render_prog(ctx.tmpdir() / "oracle" / tag, prog, lead, files)
     want = sem_reqs(declared_reqs(d))
     seen = {}
     old = os.getcwd()
@@ -2027,6 +2140,14 @@ def oracle_program(ctx: Ctx, enc440, MM, S, MetadataError, prog: Dict[str, Any],
                     except MetadataError:
                         if prog["pyproject"] and k != "D":
                             continue                      # listed known finding
+                        if not prog.get("cfg_only") and not prog["pyproject"]:
+                            # with a setup.py the real code still has its egg_info fall-back (stubbed above): only a
+                            # failure that survives it is a failure of the property
+                            S.FAILED_BUILDS.discard(paths[k])
+                            with Stubs(S, real_egg_info=True):
+                                o2 = observe_extract(enc440, MM, MetadataError, paths[k], semantic=True)
+                            if o2[0] == "OKSEM" and o2[1] == d["name"]:
+                                continue
                         return f"{k}: a project of the supported idiom family is reported as a metadata failure"
                     finally:
                         os.chdir(old)
@@ -2171,7 +2292,8 @@ def search(ctx: Ctx) -> Optional[Dict[str, Any]]:
                 suspects.append({"decl": d, "version_idiom": c.get("version_idiom", "literal"),
                                  "install_idiom": c.get("install_idiom", "literal"), "here": c.get("here", "rel"),
                                  "pkg": c.get("pkg", "pkg"), "i": 0, "pyproject": bool(c.get("pyproject", False)),
-                                 "readme": c.get("readme")})
+                                 "readme": c.get("readme"), "cfg_only": bool(c.get("cfg_only")), "bare_dir": bool(c.get("bare_dir")),
+                                 "text": c.get("text")})
     for i in range(ctx.n(150, 1500)):
         suspects.append(gen_program(rng, i))
     for n, prog in enumerate(suspects):
